@@ -156,6 +156,19 @@ Proof.
 Qed.
 Print Assumptions C02_start_end_of_line.
 
+(* get_start_of_line_position(after_whitespace=True) lands on the first
+   non-blank of the current line (or its end): column w of the line, where the
+   first w characters are all blank (str.isspace) and the character at w, if
+   any, is not; w characters = leading_whitespace_in_current_line *)
+Theorem C02_start_of_line_after_whitespace_lands : forall d,
+  let w := cursor_position_col d + get_start_of_line_position d true in
+  0 <= w <= len (current_line d) /\
+  forallb is_space (firstn (Z.to_nat w) (current_line d)) = true /\
+  (forall x, nth_error (current_line d) (Z.to_nat w) = Some x -> is_space x = false) /\
+  leading_whitespace_in_current_line d = firstn (Z.to_nat w) (current_line d).
+Proof. exact start_of_line_after_whitespace_lands. Qed.
+Print Assumptions C02_start_of_line_after_whitespace_lands.
+
 (* up / down: defined and in bounds for EVERY count and preferred column (the
    assert count >= 1 is gone: fix 46fed32); a negative count is the opposite
    motion; for count >= 0 the target is
@@ -462,7 +475,8 @@ Theorem C02_matching_bracket : forall d sp ep, valid d ->
        nth_error (dtext d) (Z.to_nat (dcur d + v)) = Some b /\
        balanced_span a b (firstn (Z.to_nat (v - 1)) (skipn (Z.to_nat (dcur d + 1)) (dtext d)))) \/
       (v < 0 /\ opt_is (current_char d) b = true /\
-       nth_error (dtext d) (Z.to_nat (dcur d + v)) = Some a))).
+       nth_error (dtext d) (Z.to_nat (dcur d + v)) = Some a /\
+       balanced_span b a (firstn (Z.to_nat (- v - 1)) (rev (firstn (Z.to_nat (dcur d)) (dtext d))))))).
 Proof. intros d sp ep Hv. exact (matching_loop_spec d sp ep bracket_pairs Hv). Qed.
 Print Assumptions C02_matching_bracket.
 
